@@ -351,6 +351,42 @@ func (lt *leakTracker) finish(pendingOf func(class string) string) {
 	}
 	lt.rep.Max("leftover_conn_at_batch_end", int64(max0(left.Conn)))
 	lt.rep.Max("leftover_fds_at_batch_end", int64(max0(left.FDs)))
+	reported := map[string]bool{}
+	total := map[string]int{} // metric -> cases with growth over the whole batch
+	for _, class := range lt.order {
+		for _, g := range lt.classes[class] {
+			for fn, d := range g.Lib {
+				if d > 0 {
+					total["leak-goroutines("+fn+")"]++
+				}
+			}
+			if g.Kids > 0 {
+				total["leak-children"]++
+			}
+		}
+	}
+	defer func() {
+		// sporadic leaks: growth in two or more cases of DIFFERENT classes, still there at the end
+		var ms []string
+		for m := range total {
+			ms = append(ms, m)
+		}
+		sort.Strings(ms)
+		for _, metric := range ms {
+			if reported[metric] || total[metric] < 2 {
+				continue
+			}
+			still := left.Kids
+			if metric != "leak-children" {
+				still = left.Lib[strings.TrimSuffix(strings.TrimPrefix(metric, "leak-goroutines("), ")")]
+			}
+			if still < 2 {
+				continue
+			}
+			lt.rep.Violation(fmt.Sprintf("C08|%s|any@sporadic|pending=n|%s", lt.who, metric), fmt.Sprintf("%s: %s grew in %d cases of different classes and %d are still there after every client was closed, at quiescence", lt.who, metric, total[metric], still),
+				map[string]interface{}{"left_at_batch_end": left.Lib, "children": left.Kids, "dump_excerpt": dumpExcerpt(lt.side, metric)})
+		}
+	}()
 	for _, class := range lt.order {
 		gs := lt.classes[class]
 		type acc struct{ cases, sum int }
@@ -406,6 +442,7 @@ func (lt *leakTracker) finish(pendingOf func(class string) string) {
 				// the sockets of the leaked connections: one defect, reported as leak-connections (fds in the witness)
 				continue
 			}
+			reported[metric] = true
 			sig := fmt.Sprintf("C08|%s|%s|pending=%s|%s", lt.who, class, pendingOf(class), metric)
 			lt.rep.Violation(sig, fmt.Sprintf("%s %s: %s grew in %d of %d cases of this class (+%d in total over %d calls) and is still above the pre-test baseline after Close and at quiescence", lt.who, class, metric, a.cases, len(gs), a.sum, calls),
 				map[string]interface{}{"growth_per_case": gs, "left_at_batch_end": map[string]interface{}{"goroutines": left.Lib, "conn": left.Conn, "fds": left.FDs, "children": left.Kids}, "dump_excerpt": dumpExcerpt(lt.side, metric)})
@@ -472,4 +509,23 @@ func c08Close(c *kit.LibClient, done chan error) {
 		}
 	}()
 	done <- c.Close()
+}
+
+// notePoint records the matrix actually covered: one set per (kind, fault kind) holding the points.
+func notePoint(rep *vh.Reporter, kind, fault, point string, pending int) {
+	rep.SetAdd("fault_points", kind+"|"+fault+"@"+point)
+	rep.SetAdd("points|"+kind+"|"+fault, point)
+	rep.SetAdd("transports", kind)
+	rep.SetAdd("fault_kinds", fault)
+	rep.SetAdd("pending_counts", fmt.Sprint(pending))
+	rep.Count("cases_"+fault, 1)
+}
+
+var sampled atomic.Bool
+
+// sampleOnce keeps the first case of this child as a written-out sample.
+func sampleOnce(rep *vh.Reporter, v interface{}) {
+	if sampled.CompareAndSwap(false, true) {
+		rep.Sample(v)
+	}
 }
